@@ -16,9 +16,16 @@ contract("_OneTimeSelector.__call__", source=M + "_OneTimeSelector.__call__", pa
          ensures=["implies(result, forall(lambda k: implies(0 <= k and k < len(prefixes(imported_primary)), select(self.selected_names, prefixes(imported_primary)[k]))))",
                   "forall(lambda n: implies(select(old(self.selected_names), n), select(self.selected_names, n)), 'Str')",
                   "implies(not result, self.selected_names == old(self.selected_names))",
-                  "result == old_can(self, imported_primary)" if False else "True"],
+                  # kept exactly when some dotted prefix was wanted and not yet provided before this call
+                  "implies(result, old(exists(lambda k: 0 <= k and k < len(prefixes(imported_primary)) and wanted_unselected(self, prefixes(imported_primary)[k]))))",
+                  "implies(not result, old(forall(lambda k: implies(0 <= k and k < len(prefixes(imported_primary)), not wanted_unselected(self, prefixes(imported_primary)[k])))))",
+                  # and only the prefixes of this import become provided
+                  "forall(lambda n: implies(select(self.selected_names, n) and not select(old(self.selected_names), n), "
+                  "       exists(lambda k: 0 <= k and k < len(prefixes(imported_primary)) and prefixes(imported_primary)[k] == n)), 'Str')"],
          loops={1: {"index": "i", "inv": ["forall(lambda k: implies(0 <= k and k < i, select(self.selected_names, prefixes(imported_primary)[k])))",
-                                          "forall(lambda n: implies(select(old(self.selected_names), n), select(self.selected_names, n)), 'Str')"]}},
+                                          "forall(lambda n: implies(select(old(self.selected_names), n), select(self.selected_names, n)), 'Str')",
+                                          "forall(lambda n: implies(select(self.selected_names, n) and not select(old(self.selected_names), n), "
+                                          "       exists(lambda k: 0 <= k and k < i and prefixes(imported_primary)[k] == n)), 'Str')"]}},
          note="when an import is kept every prefix it provides becomes 'selected', and nothing is ever unselected")
 
 from bounded import c07_imports as _b7
